@@ -1,6 +1,6 @@
 (* C16Proofs.v — lemmas behind props/C16.v *)
 From Coq Require Import String Ascii.
-From SV Require Import Base Json MD5 Canon Export CorrC16 C16Frame C16Schema C16Analyse.
+From SV Require Import Base Json MD5 Canon Export CorrC16 C16Paths C16Frame C16Schema C16Analyse.
 Local Open Scope N_scope.
 
 (* ================================================================== small list facts *)
@@ -27,68 +27,90 @@ Proof.
   apply orb_false_iff in H. destruct H as [H1 H2]. destruct Hy as [<-|Hy]; auto.
 Qed.
 
-(* if no two elements are equal, R1-related or R2-related, and Q holds for every other pair, Q holds pairwise *)
-Lemma pairwise_from_classes : forall (R1 R2 Q : str -> str -> bool) l,
-  (forall a b, str_eqb a b = false -> R1 a b = false -> R2 a b = false -> Q a b = true) ->
-  has_dup l = false -> exists_pair R1 l = false -> exists_pair R2 l = false ->
+(* pairwise property from "the images under f are pairwise different" *)
+Lemma pairwise_of_nodup : forall (f : str -> str) (Q : str -> str -> bool) l,
+  has_dup (List.map f l) = false ->
+  (forall a b, In a l -> In b l -> f a <> f b -> Q a b = true) ->
   pairwise Q l = true.
 Proof.
-  intros R1 R2 Q l HQ. induction l as [|x l IH]; simpl; intros Hd H1 H2; auto.
-  apply orb_false_iff in Hd, H1, H2. destruct Hd as [Hd1 Hd2], H1 as [H11 H12], H2 as [H21 H22].
-  rewrite IH by assumption. rewrite andb_true_r.
-  apply forallb_forall. intros y Hy. apply HQ.
-  - eapply str_mem_false; eauto.
-  - eapply existsb_false in H11; eauto.
-  - eapply existsb_false in H21; eauto.
+  intros f Q l. induction l as [|x l IH]; simpl; intros Hd HQ; auto.
+  apply orb_false_iff in Hd. destruct Hd as [Hd1 Hd2].
+  rewrite IH; auto. rewrite andb_true_r. apply forallb_forall. intros y Hy. apply HQ; auto.
+  intro E. pose proof (str_mem_false _ _ Hd1 (f y) (in_map f _ _ Hy)) as H.
+  rewrite E, str_eqb_refl in H. discriminate.
 Qed.
 
 (* ================================================================== accepted paths are unique and
-   leaf/node consistent, outside the three defect classes *)
-Definition f20_pair (a b : str) : bool := negb (str_eqb a b) && negb (raw_nested a b) && (loc_clash a b || lex_clash a b).
-
-Lemma path_function_checked : forall o jobs p ds,
-  path_function o jobs p = ROk ds ->
-  match p with PNone | PFalse => True | _ => has_dup ds = false end.
-Proof.
-  intros o jobs p ds H. destruct p; simpl in *; auto.
-  - destruct (rmap _ jobs) as [ds'| |]; simpl in H; try discriminate.
-    destruct (has_dup ds') eqn:E; [discriminate|]. inversion H; subst. exact E.
-  - destruct (rmap _ jobs) as [ds'| |]; simpl in H; try discriminate.
-    destruct (has_dup ds') eqn:E; [discriminate|]. inversion H; subst. exact E.
-Qed.
-
+   leaf/node consistent (after the repairs: no exclusion of input classes; what remains is the
+   export root, see accepted_root_refuted) *)
 Lemma export_paths_inv : forall o jobs p ds,
-  export_paths o jobs p = ROk ds -> path_function o jobs p = ROk ds /\ check_dirs [] ds = true.
+  export_paths o jobs p = ROk ds ->
+  path_function o jobs p = ROk ds
+  /\ existsb leaves_target (List.map norm_dst ds) = false
+  /\ has_dup (List.map norm_dst ds) = false
+  /\ check_dirs (List.map norm_dst ds) = true.
 Proof.
   intros o jobs p ds H. unfold export_paths in H.
   destruct (path_function o jobs p) as [ds'| |]; simpl in H; try discriminate.
-  destruct (check_dirs [] ds') eqn:E; [|discriminate]. inversion H; subst. auto.
+  destruct (existsb leaves_target (List.map norm_dst ds')) eqn:E1; [discriminate|].
+  destruct (has_dup (List.map norm_dst ds')) eqn:E2; [discriminate|].
+  destruct (check_dirs (List.map norm_dst ds')) eqn:E3; [|discriminate]. inversion H; subst. auto.
 Qed.
 
-Lemma accepted_paths_consistent : forall o jobs p ds,
+Lemma nonroot_loc : forall d, is_root d = false -> loc_of d = split 47 (norm_dst d).
+Proof.
+  intros d H. unfold is_root, loc_of in *. unfold norm_dst.
+  destruct d as [|c d]; [vm_compute in H; discriminate|]. cbn [is_empty].
+  destruct (str_eqb (normpath (c :: d)) dot); [discriminate|reflexivity].
+Qed.
+
+Lemma check_dirs_no_node : forall ns a b, check_dirs ns = true -> In a ns -> In b ns ->
+  ~ In a (str_prefixes_from [] (split 47 b)).
+Proof.
+  intros ns a b H Ha Hb Hin. unfold check_dirs in H. apply negb_true_iff in H.
+  pose proof (existsb_false _ _ _ H a Ha) as Hf. simpl in Hf.
+  assert (Hm : In a (path_nodes ns)).
+  { unfold path_nodes. apply in_flat_map. exists b. split; auto. }
+  apply str_mem_In in Hm. congruence.
+Qed.
+
+Lemma proper_prefix_is_node : forall a b, a <> b -> is_prefix (split 47 a) (split 47 b) = true ->
+  In a (str_prefixes_from [] (split 47 b)).
+Proof.
+  intros a b Hne Hp. apply is_prefix_spec in Hp. destruct Hp as [rest Hb].
+  assert (Hrest : rest <> []).
+  { intro E. subst rest. rewrite app_nil_r in Hb. apply Hne. symmetry. eapply split_inj. exact Hb. }
+  rewrite Hb. rewrite <- (join_split 47 a) at 1.
+  apply (in_str_prefixes (split 47 a) rest []); auto. apply split_nonempty.
+Qed.
+
+Theorem accepted_paths_consistent : forall o jobs p ds,
   export_paths o jobs p = ROk ds ->
-  match p with PNone | PFalse => has_dup ds = false | _ => True end ->   (* not in class F7 *)
-  exists_pair raw_nested ds = false ->                                   (* not in class F15 *)
-  exists_pair f20_pair ds = false ->                                     (* not in class F20 *)
+  (forall d, In d ds -> is_root d = false) ->
   locs_unique ds = true /\ locs_prefix_free ds = true.
 Proof.
-  intros o jobs p ds H HF7 HF15 HF20.
-  destruct (export_paths_inv _ _ _ _ H) as [Hpf _].
-  pose proof (path_function_checked _ _ _ _ Hpf) as Hchk.
-  assert (Hdup : has_dup ds = false) by (destruct p; auto).
+  intros o jobs p ds H Hroot.
+  destruct (export_paths_inv _ _ _ _ H) as [_ [_ [Hdup Hchk]]].
   unfold locs_unique, locs_prefix_free. rewrite !pairwise_map.
+  assert (Hcore : forall a b, In a ds -> In b ds -> norm_dst a <> norm_dst b ->
+            is_prefix (loc_of a) (loc_of b) = false).
+  { intros a b Ha Hb Hne. rewrite (nonroot_loc a (Hroot a Ha)), (nonroot_loc b (Hroot b Hb)).
+    destruct (is_prefix (split 47 (norm_dst a)) (split 47 (norm_dst b))) eqn:E; auto.
+    exfalso. eapply (check_dirs_no_node (List.map norm_dst ds) (norm_dst a) (norm_dst b) Hchk).
+    - apply in_map. exact Ha.
+    - apply in_map. exact Hb.
+    - apply proper_prefix_is_node; auto. }
   split.
-  - apply (pairwise_from_classes raw_nested f20_pair); auto.
-    intros a b Hab Hn Hf. unfold f20_pair in Hf. rewrite Hab, Hn in Hf. simpl in Hf.
-    apply orb_false_iff in Hf. destruct Hf as [Hf _].
-    unfold loc_clash in Hf. apply orb_false_iff in Hf. destruct Hf as [Hf _].
+  - apply (pairwise_of_nodup norm_dst); auto. intros a b Ha Hb Hne.
     destruct (fpath_eqb (loc_of a) (loc_of b)) eqn:E; auto.
-    apply fpath_eqb_eq in E. rewrite E, is_prefix_refl in Hf. discriminate.
-  - apply (pairwise_from_classes raw_nested f20_pair); auto.
-    intros a b Hab Hn Hf. unfold f20_pair in Hf. rewrite Hab, Hn in Hf. simpl in Hf.
-    apply orb_false_iff in Hf. destruct Hf as [Hf _].
-    unfold loc_clash in Hf. rewrite Hf. apply orb_true_r.
+    apply fpath_eqb_eq in E. pose proof (Hcore a b Ha Hb Hne) as Hc. rewrite E, is_prefix_refl in Hc. discriminate.
+  - apply (pairwise_of_nodup norm_dst); auto. intros a b Ha Hb Hne.
+    rewrite (Hcore a b Ha Hb Hne), (Hcore b a Hb Ha (fun E => Hne (eq_sym E))). apply orb_true_r.
 Qed.
+
+(* a single job is always consistent, whatever its path *)
+Lemma single_path_consistent : forall d, locs_unique [d] = true /\ locs_prefix_free [d] = true.
+Proof. intro d. split; reflexivity. Qed.
 
 (* ================================================================== agreement with the model gives
    the source / uniqueness / leaf-node clauses of the oracle *)
@@ -105,10 +127,10 @@ Lemma list_eqb_str_eq : forall a b, list_eqb str_eqb a b = true -> a = b.
 Proof. intros a b H. apply (list_eqb_eq _ str_eqb str_eqb_eq). exact H. Qed.
 
 Lemma model_holds_paths : forall c,
-  mismatch_C16 c = false -> cls_F7 c = false -> cls_F15 c = false -> cls_F20 c = false ->
+  mismatch_C16 c = false -> cls_root c = false ->
   h_src c = true /\ h_unique c = true /\ h_leafnode c = true.
 Proof.
-  intros c Hm H7 H15 H20. unfold mismatch_C16 in Hm. apply orb_false_iff in Hm. destruct Hm as [Hm _].
+  intros c Hm Hr. unfold mismatch_C16 in Hm. apply orb_false_iff in Hm. destruct Hm as [Hm _].
   unfold mismatch_export in Hm.
   repeat (apply orb_false_iff in Hm; destruct Hm as [Hm ?]).
   rename H into Hart, H0 into Hmap, H1 into Hexn, H2 into Hout, H3 into Hsrc.
@@ -120,11 +142,11 @@ Proof.
   unfold opt_exn_eqb in Hexn. destruct (eo_exn (run_export c)) eqn:Ee; [discriminate|].
   destruct (export_model_ok _ _ _ _ Ee Hm) as [ds [Hds Hmapd]].
   fold (run_export c) in Hmapd. rewrite Hmapd in Hmap. subst ds.
-  unfold cls_F7, cls_F15, cls_F20, model_paths in *. rewrite Hds in *.
-  assert (Hc := accepted_paths_consistent _ _ _ _ Hds).
-  destruct Hc as [Hu Hl]; auto.
-  - destruct (c_path c); auto.
-  - apply orb_false_iff in H20. destruct H20 as [H20 _]. exact H20.
+  unfold cls_root, model_paths in Hr. rewrite Hds in Hr.
+  apply andb_false_iff in Hr. destruct Hr as [Hr|Hr].
+  - (* at most one job *)
+    destruct (x_map c) as [|d [|d' t]]; [split; reflexivity|apply single_path_consistent|discriminate].
+  - apply (accepted_paths_consistent _ _ _ _ Hds). intros d Hd. eapply existsb_false; eauto.
 Qed.
 
 (* ================================================================== refutations: concrete witnesses *)
@@ -150,64 +172,92 @@ Lemma witness_ids :
   = List.map j_id [j_a1; j_a1s; j_a10; j_a100; j_a2; j_up].
 Proof. vm_compute. reflexivity. Qed.
 
-(* F7: path=None, {'a': 1} and {'a': '1'} *)
+(* ---- the former counterexamples, now on the repaired model *)
+(* F7 repaired: {'a': 1} and {'a': '1'} with path=None are refused before anything is written *)
 Definition f7_jobs := [j_a1; j_a1s].
-Lemma f7_witness :
-  export_paths (orc f7_jobs) f7_jobs PNone = ROk [q "a/1"; q "a/1"]
+Lemma f7_repaired :
+  export_paths (orc f7_jobs) f7_jobs PNone = RExn ERuntimeError
   /\ (let e := export_model (orc f7_jobs) f7_jobs KDir PNone in
-      eo_exn e = Some EOSError /\ art_empty (eo_art e) = false)          (* fails after copying the first job *)
+      eo_exn e = Some ERuntimeError /\ art_empty (eo_art e) = true)
   /\ (let e := export_model (orc f7_jobs) f7_jobs KZip PNone in
-      eo_exn e = None
-      /\ (let i := import_model (orc f7_jobs) SchNone (eo_art e) (dst_init []) in
-          io_exn i = None /\ fs_eqb (io_dst i) (expected_dst [] f7_jobs) = false
-          /\ List.length (fs_children WS (io_dst i)) = 1%nat)).          (* two jobs merged into one *)
+      eo_exn e = Some ERuntimeError /\ art_empty (eo_art e) = true).
 Proof. vm_compute. repeat split. Qed.
 
-(* F15: order dependence of the leaf/node check *)
-Lemma f15_witness :
-  check_dirs [] [q "a"; q "a/b"] = true /\ check_dirs [] [q "a/b"; q "a"] = false.
-Proof. vm_compute. split; reflexivity. Qed.
+(* F15 repaired: the leaf/node check rejects both orders *)
+Lemma f15_repaired :
+  check_dirs [q "a"; q "a/b"] = false /\ check_dirs [q "a/b"; q "a"] = false
+  /\ check_dirs [q "a/c"; q "a/b"] = true.
+Proof. vm_compute. repeat split. Qed.
 
-(* F6: zip round trip of a = 1, 10, 100 *)
+(* F6 repaired: the zip round trip of a = 1, 10, 100 is exact *)
 Definition f6_jobs := [j_a1; j_a10; j_a100].
-Lemma f6_witness :
+Lemma f6_repaired :
   let o := orc f6_jobs in
   let e := export_model o f6_jobs KZip PNone in
   eo_exn e = None /\ eo_map e = [q "a/1"; q "a/10"; q "a/100"]
   /\ (let i := import_model o SchNone (eo_art e) (dst_init []) in
-      io_exn i = None
-      /\ fs_children WS (io_dst i) = [j_id j_a1; q "10"; q "100"]     (* 1 of 3 jobs; the rest misplaced *)
-      /\ contained (io_dst i) = false).
+      io_exn i = None /\ fs_eqb (io_dst i) (expected_dst [] f6_jobs) = true).
 Proof. vm_compute. repeat split. Qed.
 
-(* F6 also defeats "import never overwrites an existing job" *)
+(* ... and the former overwrite scenario leaves the existing job alone *)
 Definition f6o_jobs := [j_a2; j_a10].
 Definition f6o_spec := PCall [(j_id j_a2, ROk (q "4")); (j_id j_a10, ROk (j_id j_a1))].
-Lemma f6_overwrite_witness :
+Lemma f6_overwrite_repaired :
   let o := orc (j_a1 :: f6o_jobs) in
   let e := export_model o f6o_jobs KZip f6o_spec in
   eo_exn e = None
   /\ (let i := import_model o SchNone (eo_art e) (dst_init [j_a1]) in
-      io_exn i = None /\ pre_untouched [j_a1] (io_dst i) = false).
+      io_exn i = None /\ pre_untouched [j_a1] (io_dst i) = true
+      /\ fs_eqb (io_dst i) (expected_dst [j_a1] f6o_jobs) = true).
 Proof. vm_compute. repeat split. Qed.
 
-(* F18: a single job exported to an archive is dropped on import *)
-Lemma f18_witness :
+(* F18 repaired: a single job survives the zip and the tar round trip *)
+Lemma f18_repaired :
   let o := orc [j_a1] in
   (let e := export_model o [j_a1] KZip PNone in
    eo_exn e = None /\ eo_map e = [[]]
-   /\ let i := import_model o SchNone (eo_art e) (dst_init []) in io_exn i = None /\ io_dst i = dst_init [])
+   /\ let i := import_model o SchNone (eo_art e) (dst_init []) in
+      io_exn i = None /\ fs_eqb (io_dst i) (expected_dst [] [j_a1]) = true)
   /\ (let e := export_model o [j_a1] KTar PNone in
       eo_exn e = None
-      /\ let i := import_model o SchNone (eo_art e) (dst_init []) in io_exn i = None /\ io_dst i = dst_init []).
+      /\ let i := import_model o SchNone (eo_art e) (dst_init []) in
+         io_exn i = None /\ fs_eqb (io_dst i) (expected_dst [] [j_a1]) = true).
 Proof. vm_compute. repeat split. Qed.
 
-(* F19: a value containing '..' leaves the target directory *)
-Lemma f19_witness :
+(* F19 repaired: a value containing '..' is refused before anything is written *)
+Lemma f19_repaired :
   let js := [j_up; j_a2] in
   let e := export_model (orc js) js KDir PNone in
-  eo_exn e = None /\ eo_map e = [q "../zz"; q "a/2"]
-  /\ match eo_art e with ADir f => fs_isdir [q "t"; q "e"; q "zz"] f | _ => false end = true.
+  eo_exn e = Some ERuntimeError /\ art_empty (eo_art e) = true.
+Proof. vm_compute. repeat split. Qed.
+
+(* ---- what is still refuted: F20' *)
+(* (root) a path that normalises to the export root is accepted next to another job: the leaf/node
+   conflict is not seen, the other job ends up inside the first one and is lost on import *)
+Definition root_jobs := [j_a1; j_a2].
+Definition root_spec := PCall [(j_id j_a1, ROk (q ".")); (j_id j_a2, ROk (q "r1"))].
+Lemma root_witness :
+  let o := orc root_jobs in
+  export_paths o root_jobs root_spec = ROk [q "."; q "r1"]
+  /\ locs_prefix_free [q "."; q "r1"] = false
+  /\ (let e := export_model o root_jobs KDir root_spec in
+      eo_exn e = None
+      /\ let i := import_model o SchNone (eo_art e) (dst_init []) in
+         io_exn i = None /\ fs_eqb (io_dst i) (expected_dst [] root_jobs) = false)
+  /\ (* '' and '.' are different strings for the duplicate test, but the same place *)
+     export_paths o root_jobs (PCall [(j_id j_a1, ROk (q ".")); (j_id j_a2, ROk [])]) = ROk [q "."; []]
+  /\ locs_unique [q "."; []] = false.
+Proof. vm_compute. repeat split. Qed.
+
+(* (lex) the copy uses the raw string: os.makedirs on 'a/x/../y' creates 'a/x', where another job
+   is then refused with FileExistsError after the first job has been copied *)
+Definition lex_spec := PCall [(j_id j_a1, ROk (q "a/x/../y")); (j_id j_a2, ROk (q "a/x"))].
+Lemma lex_witness :
+  let o := orc root_jobs in
+  export_paths o root_jobs lex_spec = ROk [q "a/x/../y"; q "a/x"]
+  /\ locs_unique [q "a/x/../y"; q "a/x"] = true /\ locs_prefix_free [q "a/x/../y"; q "a/x"] = true
+  /\ (let e := export_model o root_jobs KDir lex_spec in
+      eo_exn e = Some EOSError /\ art_empty (eo_art e) = false).
 Proof. vm_compute. repeat split. Qed.
 
 (* ================================================================== non-vacuity of the hypotheses *)
